@@ -128,7 +128,7 @@ def install(it):
     def ensure(it_, ctx, name, c):
         mode = getattr(ctx, "lemma_mode", None)
         if mode == "verify":
-            ctx.prove(name, it_.truth(c, ctx))
+            ctx.prove(name, it_.truth(c, ctx), assume_after=True)
         else:
             ctx.assume(it_.truth(c, ctx))
             ctx.lemma_uses = getattr(ctx, "lemma_uses", set()) | {getattr(ctx, "lemma_name", "?")}
@@ -152,6 +152,12 @@ def install(it):
         finally:
             ctx.lemma_mode, ctx.lemma_name = saved
     reg("use_lemma", use_lemma)
+
+    def withheld(it_, ctx, name):
+        """a value the code under test must not read (dependence-set obligations): any use of it
+        ends the path with a failed `reads-only-the-declared-inputs` obligation"""
+        return Opaque("WITHHELD:" + name)
+    reg("withheld", withheld)
 
     def cover(it_, ctx, name):
         ctx.covers.add(name)
